@@ -25,7 +25,7 @@ from ..core import COQ, run_snippet
 IMPORTS = 'From Cop Require Import Model.Lifecycle Spec.LifecycleProofs Spec.VineSerial.'
 SCOPE = 'Open Scope string_scope.\n'
 
-PRELUDE = '''import json, os, pickle, shutil, tempfile, warnings
+PRELUDE = '''import copy, json, os, pickle, shutil, tempfile, warnings
 import numpy as np, pandas as pd
 warnings.simplefilter('ignore')
 from copulas.univariate import (BetaUnivariate, GammaUnivariate, GaussianKDE, GaussianUnivariate, LogLaplace,
@@ -435,6 +435,11 @@ def dict_canon(r):
         return ('raised', type(ex).__name__), ('raised', type(ex).__name__)
 
 
+PERTURB = '''r = m; m = copy.deepcopy(m)      # m: pristine copy, r: the object that gets serialised
+r.to_dict(); r.to_dict()
+'''
+
+
 def path_code(path, n, entry):
     return PATHS[path].format(n=n, entry=entry)
 
@@ -467,6 +472,8 @@ def run_uni(ctx, pend, E, case, viol, tmpdir):
     E.group, L = key, E.lit
     env = run_src(case['src'])
     m, P, U, X = env['m'], env['P'], env['U'], env['X']
+    import copy
+    m0 = copy.deepcopy(m)        # taken before anything is serialised
     am, why = safe_alpha(S.alpha_u, m)
     if am is None:
         ctx.obligation(f'corr:{key}:abstraction', False, 'correspondence', why)
@@ -542,6 +549,12 @@ def run_uni(ctx, pend, E, case, viol, tmpdir):
         pend.eq(f'corr:{key}:rt_n', f'rt_n 3 {L(sm)}', f'rt_n 1 {L(sm)}', 'three model round trips = one')
     # ---- phase 2: oracles on the real objects ----
     bm = uni_behaviour(m, P, U)
+    b0 = uni_behaviour(m0, P, U)
+    for k in UNI_KINDS:      # serialising must not change the model that was serialised
+        if b0[k] != bm[k]:
+            viol.add(f'to_dict-perturbs:{case["cls"]}:{case["kind"]}:{k}',
+                     f'{key}: {k} of the ORIGINAL changes once it has been serialised: before {S.show_call(b0[k])}; after {S.show_call(bm[k])}',
+                     case['src'] + PERTURB + UNI_CHECK[k] + TAIL)
     real_equal = {}
     for path, chain in chains.items():
         for n, r in enumerate(chain, 1):
@@ -693,6 +706,8 @@ def run_biv(ctx, pend, E, case, viol, tmpdir):
     E.group, L = key, E.lit
     env = run_src(case['src'])
     m, P = env['m'], env['P']
+    import copy
+    m0 = copy.deepcopy(m)
     am = S.alpha_b(m)
     am0 = S.alpha_b(m, 'none')
     dres, d = S.result_term(m.to_dict, S.jv, 'jv')
@@ -739,6 +754,12 @@ def run_biv(ctx, pend, E, case, viol, tmpdir):
     if ('dict', 1) in alphas:
         pend.eq(f'corr:{key}:rt_n', f'snd (rt_biv_n 3 {S.world_term()} {L(am)})', f'(Ok {alphas[("dict", 1)]})', 'three model round trips = one')
     bm = biv_behaviour(m, P)
+    b0 = biv_behaviour(m0, P)
+    for k in BIV_KINDS:
+        if b0[k] != bm[k]:
+            viol.add(f'to_dict-perturbs:biv:{case["fam"]}:{k}',
+                     f'{key}: {k} of the ORIGINAL changes once it has been serialised: before {S.show_call(b0[k])}; after {S.show_call(bm[k])}',
+                     case['src'] + PERTURB + BIV_CHECK[k] + TAIL)
     dc = S.canon_unordered(S.canon(d))
     real_equal = {}
     want = type(m).__name__
@@ -1013,6 +1034,8 @@ def run_gm(ctx, pend, E, case, viol, tmpdir):
     E.group, L = key, E.lit
     env = run_src(case['src'])
     m, P = env['m'], env['P']
+    import copy
+    m0 = copy.deepcopy(m)
     am, why = safe_alpha(S.alpha_g, m)
     if am is None:
         ctx.obligation(f'corr:{key}:abstraction', False, 'correspondence', why)
@@ -1060,6 +1083,12 @@ def run_gm(ctx, pend, E, case, viol, tmpdir):
             prev = r
         chains[path] = chain
     bm = gm_behaviour(m, P)
+    b0 = gm_behaviour(m0, P)
+    for k in GM_KINDS:
+        if b0[k] != bm[k]:
+            viol.add(f'to_dict-perturbs:gm:{case["tag"]}:{k}',
+                     f'{key}: {k} of the ORIGINAL changes once it has been serialised: before {S.show_call(b0[k])}; after {S.show_call(bm[k])}',
+                     case['src'] + PERTURB + GM_CHECK[k] + TAIL)
     dc = S.canon_unordered(S.canon(d))
     real_equal = {}
     for path, chain in chains.items():
@@ -1200,6 +1229,13 @@ def run_vine(ctx, pend, E, case, viol, tmpdir):
                 # re-linking, on the real objects
                 links = all(t.previous_tree is r.trees[i - 1] for i, t in enumerate(r.trees) if i > 0) and isinstance(r.trees[0].previous_tree, np.ndarray)
                 ctx.obligation(f'corr:{key}:dict:relinked', links, 'correspondence', 'previous_tree of tree k is not the object at k-1')
+                if not links:
+                    viol.add(f'rt:vine:{case["vt"]}:dict:relink',
+                             f'{key}: after VineCopula.from_dict the previous_tree of a tree is not the tree rebuilt before it '
+                             f'({[type(t.previous_tree).__name__ for t in r.trees]})',
+                             case['src'] + path_code('dict', 1, 'VineCopula') +
+                             'assert isinstance(r.trees[0].previous_tree, np.ndarray)\n'
+                             'assert all(t.previous_tree is r.trees[i] for i, t in enumerate(r.trees[1:])), [type(t.previous_tree).__name__ for t in r.trees]\n')
             else:
                 ctx.obligation(f'corr:{key}:dict:idempotent:{n}', ar == alphas[('dict', 1)], 'correspondence', 'round trip #n differs from #1')
             chain.append(r)
